@@ -34,7 +34,7 @@ func init() {
 			"a race needs both accesses executed: the race detector sees exactly what the workload performs",
 			"writes that store the value already present are invisible to the snapshot (visible to the race detector only)",
 		},
-		Cases:         func(tier string) int { return pick(tier, 1900, 30000) },
+		Cases:         func(tier string) int { return pick(tier, 2000, 30000) },
 		Run:           c09Run,
 		Binary:        "race",
 		Aux:           c09Aux,
@@ -167,6 +167,10 @@ var c09Mutators = []struct{ name, form string }{
 	{"key-arg-sort", "(funcall (lambda (&key xs) (stable-sort < xs)) :xs V)"},
 	// forms the evaluator REWRITES before calling (step forms of 2-8 elements)
 	{"thread-last-steps", "(thread-last V (concat 'list '(7 7)) (list 0 1) (list 0 1 2 3) (list 0 1 2 3 4) (list 0 1 2 3 4 5) (reverse 'list))"},
+	// macro expansion in several passes where an earlier pass hands a piece of the program
+	// text on unchanged (a pass-through macro) and a later macro sorts its &rest in place
+	{"macroexpand-chain", "(list (macroexpand '(checked-m (sort-args-m 3 1 2))) (macroexpand '(checked-m (checked-m (sort-args-m 9 8 7 6)))) (macroexpand-1 (macroexpand-1 '(checked-m (sort-args-m 5 4)))))"},
+	{"macro-call-chain", "(list (checked-m (sort-args-m 3 1 2)) (checked-m (lit-m 3 1 2)) (eval (macroexpand (list 'checked-m (cons 'sort-args-m V)))))"},
 	{"thread-first-steps", "(thread-first V (concat 'list '(7 7)) (list 0 1) (list 0 1 2 3) (list 0 1 2 3 4 5 6) (car))"},
 }
 
@@ -178,6 +182,7 @@ func c09TemplateSource(r *fw.RNG, k int) (src, label string) {
 	shape := (k / (len(c09Mutators) * len(lits))) % 4
 	pre := `(defmacro sort-args-m (&rest xs) (stable-sort < xs) (quasiquote (quote (unquote xs))))
 (defmacro lit-m (&rest xs) (quasiquote (list (unquote-splicing (stable-sort < xs)))))
+(defmacro checked-m (form) form)
 (set 'literal-zoo (list ''(4 5 (6)) '''z (quote (quote (1 (2)))) '[1 [2 3]] '(a "s" 1.5 (b c)) #^(+ % 1) (function car) '#^(list %1 %2) ''[7 8]))
 `
 	var body string
